@@ -26,9 +26,9 @@ CLAIMS = {
         design="7/C13",
     ),
     "C14": dict(
-        text="PARTIAL proof + correspondence. Proved in Coq (unbounded): the 15-bit digit codec of dump_long/load_long - for every non-negative integer the emitted digits denote it, each is a legal marshal digit and the top digit is non-zero (what marshal.c's reader demands). The whole-tree round trip is decided by correspondence only: Model.Marsh.dumps (hand model incl. chunk-to-bytes assembly) vs xdis.marsh.dumps byte for byte; the host's real marshal.loads of those bytes gives back the value (kind and content); xdis.marsh.loads of the host's marshal.dumps(v, 0|1) gives back the value and equals the shared reader model under marsh_cfg. Not yet a theorem: reader(dumps v) = v for all value trees (planned via the C10 reader).",
-        note="Trusted: Coq kernel; hand model coq/Model/Marsh.v; harness value generator (ints to 2^450, inf/-0.0/subnormal floats, Latin-1/BMP/astral/lone-surrogate text, 300-item containers, None keys); repr(float)/float(str) are taken from the host. NaN payloads are outside (text floats cannot carry them). Hosts 3.8-3.13 in the thorough tier, 3.12 in quick.",
-        technique="Coq proof of the integer codec + differential correspondence against the host marshal",
+        text="Machine-checked Coq proofs, unbounded in the value: (1) loads(dumps(v)) = v through xdis.marsh's own reader, and (2) CPython's marshal reader (the strict configuration of the shared reader model, validated against marshal.loads of the installed interpreters in C10) of the magic of EVERY Python 3 version in xdis's table returns v for xdis.marsh.dumps(v) - for every plain value tree: None, booleans, Ellipsis, StopIteration, integers of any magnitude (15-bit digit codec: digits denote the integer, are in range, top digit non-zero), floats/complex (written as text; the decimal string comes back), bytes, valid UTF-8 text, tuples, lists, sets, frozensets, dicts to any depth; the reader stops exactly where dumps stopped and its fuel (input length + 1) suffices. Model tied by correspondence: Model.Marsh.dumps vs xdis.marsh.dumps byte for byte; the host's real marshal.loads on those bytes; xdis.marsh.loads of the host's marshal.dumps(v, 0|1) (this third direction is correspondence only) on hosts 3.8-3.13.",
+        note="Trusted: Coq kernel; hand model coq/Model/Marsh.v (dumps) and the shared reader coq/Model/Unmarshal.v; repr(float)/float(str) are the host's (the theorem holds for any repr_float); harness value generator. Reading the HOST's dumps output (binary floats, interned short strings) with xdis.marsh.loads is decided by correspondence, not a theorem. NaN payloads are outside. No axioms.",
+        technique="Coq proof by induction over value trees (reader of writer = identity, generic in the reader configuration) + vm_compute obligation over the magic table + differential correspondence against the host marshal",
         design="7/C14",
     ),
     "C01": dict(
